@@ -6,6 +6,7 @@ package vstub
 
 import (
 	"context"
+	"encoding/hex"
 	"fmt"
 	"reflect"
 	"sync"
@@ -126,19 +127,35 @@ func (k *PubKey) Verify(data []byte, sig []byte) (bool, error) {
 
 func (k *PubKey) Raw() ([]byte, error) { return k.raw, nil }
 
-// NewIdentity creates an identity whose id and public key are derived from name.
+// NewIdentity creates a well-formed orbitdb identity for `name` over the
+// symbolic signature scheme: the id is the hex form of the identity's id key
+// ("rk-<name>"), the public key is "pk-<name>", Signatures.ID is the public
+// key's signature of the id and Signatures.PublicKey the id key's signature of
+// hex(public key ++ id signature) - exactly the chain the real orbitdb identity
+// provider builds, so that code verifying it accepts harness identities and
+// rejects forged ones.
 func NewIdentity(name string, prov idp.Interface) *idp.Identity {
+	id := IDOf(name)
+	pub := []byte("pk-" + name)
+	sigID := SignToken(pub, []byte(id))
+	signed := append(append([]byte{}, pub...), sigID...)
 	return &idp.Identity{
-		ID:        "id-" + name,
-		PublicKey: []byte("pk-" + name),
+		ID:        id,
+		PublicKey: pub,
 		Signatures: &idp.IdentitySignature{
-			ID:        []byte("sigid-" + name),
-			PublicKey: []byte("sigpk-" + name),
+			ID:        sigID,
+			PublicKey: SignToken(IDKeyOf(name), []byte(hex.EncodeToString(signed))),
 		},
 		Type:     "orbitdb",
 		Provider: prov,
 	}
 }
+
+// IDKeyOf is the (public) id key of the harness identity `name`.
+func IDKeyOf(name string) []byte { return []byte("rk-" + name) }
+
+// IDOf is the identity id of the harness identity `name` (hex of its id key).
+func IDOf(name string) string { return hex.EncodeToString(IDKeyOf(name)) }
 
 // ---------------------------------------------------------------- block store + IO
 
@@ -647,3 +664,36 @@ func MkEntry(k int, payload []byte) *entry.Entry {
 	return &entry.Entry{Hash: MkCid(k), Payload: payload, LogID: "log", V: 2,
 		Clock: &entry.LamportClock{ID: []byte("w"), Time: k + 1}}
 }
+
+// AuthorEntry builds, for the unit harnesses of the access controllers, an entry
+// carrying an identity block that is genuine or forged by identity "b":
+//
+//	0 genuine "a"            1 genuine "b"
+//	2 "b" naming a's id (own key, own signatures)
+//	3 "b" naming a's id, the id re-signed with b's key, a's voucher copied
+//	4 a copy of a's identity block, the entry signed with b's key
+//	5 a's block with the signatures stripped
+//
+// It returns the entry, the id it claims and whether the claim is genuine.
+func AuthorEntry(kind int) (e *entry.Entry, claimedID string, genuine bool) {
+	prov := NewProvider()
+	a, b := NewIdentity("a", prov), NewIdentity("b", prov)
+	switch kind {
+	case 0:
+		return &entry.Entry{Identity: a.Filtered(), Key: a.PublicKey}, a.ID, true
+	case 1:
+		return &entry.Entry{Identity: b.Filtered(), Key: b.PublicKey}, b.ID, true
+	case 2:
+		return &entry.Entry{Identity: &idp.Identity{ID: a.ID, PublicKey: b.PublicKey, Signatures: b.Signatures, Type: "orbitdb"}, Key: b.PublicKey}, a.ID, false
+	case 3:
+		sigs := &idp.IdentitySignature{ID: SignToken(b.PublicKey, []byte(a.ID)), PublicKey: a.Signatures.PublicKey}
+		return &entry.Entry{Identity: &idp.Identity{ID: a.ID, PublicKey: b.PublicKey, Signatures: sigs, Type: "orbitdb"}, Key: b.PublicKey}, a.ID, false
+	case 4:
+		return &entry.Entry{Identity: a.Filtered(), Key: b.PublicKey}, a.ID, false
+	default:
+		return &entry.Entry{Identity: &idp.Identity{ID: a.ID, PublicKey: a.PublicKey, Type: "orbitdb"}, Key: a.PublicKey}, a.ID, false
+	}
+}
+
+// AuthorKinds is the number of cases of AuthorEntry.
+const AuthorKinds = 6
